@@ -32,7 +32,8 @@ def closure_site(prog, clos):
 def site_literals(prog, body, bb):
     """must-literals at a site; for a site inside a closure the literals at the closure's creation site in the
     (transitive) parent are added (rooted in the parent's parameters)."""
-    lits = set(cnd.conds(prog, body).must_literals(bb))
+    # bool helpers such as `self.is_master()` are expanded to what they guarantee (`self.port_state in {Master}`)
+    lits = set(cnd.expand_literals(prog, body, set(cnd.conds(prog, body).must_literals(bb))))
     owner = body
     cur_bb = bb
     chain = []
@@ -44,7 +45,7 @@ def site_literals(prog, body, bb):
         owner, cur_bb = parent, pbb
     outer = set()
     for (parent, pbb) in chain:
-        outer |= set(cnd.conds(prog, parent).must_literals(pbb))
+        outer |= set(cnd.expand_literals(prog, parent, set(cnd.conds(prog, parent).must_literals(pbb))))
     return lits, outer, (chain[-1] if chain else (body, bb))
 
 
